@@ -444,6 +444,12 @@ class Engine:
         if m and m.group(1) in INT_W:
             w = INT_W[m.group(1)]
             return BV((1 << (w - 1)) - 1 if m.group(1) in SIGNED else (1 << w) - 1, w)
+        m = re.match(r"const core::num::<impl (\w+)>::(MIN|BITS)$", tok) or re.match(r"const (\w+)::(MIN|BITS)$", tok)
+        if m and m.group(1) in INT_W:
+            w = INT_W[m.group(1)]
+            if m.group(2) == "BITS":
+                return BV(w, 32)
+            return BV(1 << (w - 1) if m.group(1) in SIGNED else 0, w)
         m = re.match(r"const core::f(32|64)::<impl f\d+>::(\w+)$", tok) or re.match(r"const f(32|64)::(\w+)$", tok)
         if m:
             sort = z3.Float32() if m.group(1) == "32" else z3.Float64()
